@@ -125,6 +125,7 @@ type VC struct {
 	fresh   int
 	allocs  []string
 	sorts   []string
+	clock   string // term denoting the allocation time of the most recent allocation / loop epoch
 	sidx    *sliceIndex
 	allocSet map[string]bool
 	notes   []string // unmodelled constructs, havocked calls, inlined functions
@@ -228,6 +229,7 @@ type Gen struct {
 	inlineExt map[string]bool
 	impByName map[string]*types.Package
 	lockObls  bool
+	keyPaths  map[string]string
 	coveredSite map[ssa.Instruction]bool
 	inInit    bool
 	unstableGlobals  map[string]bool
@@ -396,15 +398,26 @@ func (g *Gen) sortOf(t types.Type) string {
 func (g *Gen) structKey(t types.Type) string {
 	t = types.Unalias(t)
 	if n, ok := t.(*types.Named); ok {
-		pk := ""
+		pk, path := "", ""
 		if n.Obj().Pkg() != nil {
 			pk = n.Obj().Pkg().Name() + "."
+			path = n.Obj().Pkg().Path()
 		}
 		s := pk + n.Obj().Name()
 		if ta := n.TypeArgs(); ta != nil && ta.Len() > 0 {
 			s += "_" + sanitize(ta.At(0).String())
 		}
-		return sanitize(s)
+		s = sanitize(s)
+		// two packages with the same name (sync and internal/sync): disambiguate by path
+		if g.keyPaths == nil {
+			g.keyPaths = map[string]string{}
+		}
+		if prev, ok := g.keyPaths[s]; ok && prev != path {
+			return sanitize(path + "." + n.Obj().Name())
+		} else if !ok {
+			g.keyPaths[s] = path
+		}
+		return s
 	}
 	return "anon_" + sanitize(t.String())
 }
@@ -586,7 +599,7 @@ func sortedKeys[V any](m map[string]V) []string {
 
 // strAxioms are included in a query only when their trigger symbol occurs in it.
 var strAxioms = []struct{ sym, ax string }{
-	{"", `(assert (= (slen empty$) 0))`},
+	{"", `(assert (and (= (slen empty$) 0) (isnil$ empty$)))`},
 	{"maplen$", `(assert (forall ((m Int)) (! (>= (maplen$ m) 0) :pattern ((maplen$ m)))))`},
 	{"slen", `(assert (forall ((s Str)) (! (>= (slen s) 0) :pattern ((slen s)))))`},
 	{"cat", `(assert (forall ((a Str) (b Str)) (! (= (slen (cat a b)) (+ (slen a) (slen b))) :pattern ((cat a b)))))`},
